@@ -845,6 +845,11 @@ impl<'a> Message<'a> {
                     bail!("cannot verify unknown hash");
                 };
 
+                // The same acceptance rules as for detached signatures apply
+                // (see `Signature::verify`).
+                Signature::check_signature_key_version_alignment(key, config)?;
+                Signature::check_signature_hash_strength(config)?;
+
                 // Check that the high 16 bits of the hash from the signature packet match with the hash we
                 // just calculated.
                 //
